@@ -293,6 +293,14 @@ func genC08Burst(rng *Rng, workdir string) *engSession {
 	nb := rng.Range(9, 12)
 	var first flap.VerifFlight
 	d0 := uint64(t.Kept.Clearance)/86400 + uint64(rng.Range(1, 3))
+	// in half of the histories the book is filled exactly (nine further trips) and more trips are promised only
+	// once the kept promise's clearance date has passed: only then may its entry leave the book, and the stored
+	// clearance date is all the traveller has at the next check-in
+	late := rng.Bool()
+	if late {
+		nb = 9
+		d0 = uint64(t.Kept.Clearance)/86400 + uint64(rng.Range(3, 5))
+	}
 	made := 0
 	for k := 0; k < nb; k++ {
 		f := leg(d0+uint64(3*k), uint64(rng.Range(1000, 50000)), 1+k%3, 2+k%3, 20.5+40*rng.F01())
@@ -307,6 +315,24 @@ func genC08Burst(rng *Rng, workdir string) *engSession {
 	s.stat["c08_burst_promises"] += made
 	if made == 0 {
 		return s
+	}
+	if late {
+		for day <= uint64(t.Kept.Clearance)/86400 {
+			day++
+			s.update(day * 86400)
+		}
+		for k := 0; k < 3 && day < uint64(first.Start)/86400; k++ {
+			f := leg(d0+uint64(3*(nb+k)), uint64(rng.Range(1000, 50000)), 1+k%3, 2+k%3, 20.5+40*rng.F01())
+			c, sl := s.propose(0, []flap.VerifFlight{f}, 0, day*86400+uint64(100+k))
+			if c == 0 && s.make(0, sl, day*86400+uint64(200+k), s.props[sl].VerifVersion()) == 0 {
+				made++
+			}
+		}
+		if tl, ok := s.get(0); ok && tl.Kept.Clearance != 0 {
+			if _, err := tl.Promises.VerifMatch(tl.Kept); err != nil {
+				s.stat["c08_kept_entry_left_the_book_after_its_clearance_date"]++
+			}
+		}
 	}
 	// live up to the first of them
 	for day+1 <= uint64(first.Start)/86400 {
